@@ -551,6 +551,43 @@ def c13_cachesrc(R):
         "add_replacement does not record the replacement in both _replacements and _replacement_cache",
         construct="add_replacement writes both tables",
     )
+    # the cache also memoises rewrites of compound expressions derived from the table (_replacement stores them):
+    # a new pair makes any of those stale, so the re-seed that precedes the store may depend on the caller's
+    # `invalidate_cache` flag only - never on what the cache currently holds
+    reseeds = [
+        node
+        for a, kind, node, val in util.attr_writes(ar, "self")
+        if a == "_replacement_cache" and kind == "assign"
+    ]
+    R.check(
+        len(reseeds) >= 1,
+        m,
+        ar,
+        "add_replacement re-seeds the lookup cache",
+        "add_replacement no longer drops the derived rewrites memoised in _replacement_cache when a pair is added",
+        construct="add_replacement re-seed present",
+    )
+    for node in reseeds:
+        tests = []
+        p = node
+        while p is not ar:
+            par = p._parent
+            if isinstance(par, ast.If) and any(p is st for st in par.body):
+                tests.append(ast.unparse(par.test))
+            elif isinstance(par, ast.If):
+                tests.append("not (" + ast.unparse(par.test) + ")")
+            elif isinstance(par, (ast.For, ast.While, ast.Try, ast.With)):
+                tests.append(type(par).__name__)
+            p = par
+        R.check(
+            tests == ["invalidate_cache"],
+            m,
+            node,
+            "add_replacement: derived rewrites are dropped whenever the caller asks for invalidation",
+            f"add_replacement re-seeds the lookup cache only under {tests}: rewrites of compound expressions memoised "
+            f"from the old table (x+y -> 5+y) survive the new pair and are returned stale",
+            construct="add_replacement re-seed condition",
+        )
     rp = ms["_replacement"]
     reads = {a for a, _ in util.attr_reads(rp, "self")}
     R.check(
